@@ -13,7 +13,9 @@ and requires, against the object built from the float64 C-contiguous copy of the
 harness/c20_types.py, but without a reduced-precision allowance: the constructor's contract is float64):
 
     np.asarray(obj).dtype is float64 (native), C-contiguous, holds the same values bit for bit; obj.kepler / obj.trs,
-    .M and .f are float64 and equal bit for bit those of the float64 copy; the array handed in is not modified.
+    .M and .f are float64 and equal those of the float64 copy to 1e-11 (scaled; the same float64 values in another
+    buffer may be summed in another order by NumPy's reductions: differences of an ulp occur; single precision is 1e-7);
+    the array handed in is not modified.
 
 correspondence: row 0 of the conversion of the typed object against the Float model of the kernel on the exact values.
 """
@@ -62,6 +64,18 @@ def bits_equal(a, b) -> bool:
     return a.shape == b.shape and a.dtype == b.dtype and a.tobytes() == b.tobytes()
 
 
+TOL = 1e-11   # the same float64 values in another buffer: NumPy's reductions (einsum, norm) may sum in another order
+
+
+def close_f64(a, b) -> bool:
+    a, b = np.asarray(a), np.asarray(b)
+    if a.shape != b.shape or a.dtype != np.dtype("float64"):
+        return False
+    with np.errstate(invalid="ignore"):
+        d = np.abs(a - b) / np.maximum(1.0, np.abs(b))
+    return bool(np.all((d <= TOL) | (np.isnan(a) & np.isnan(b))))
+
+
 def typed_case(ctx, PosVel, GM, gen_elements, how=None):
     """one base array (states or elements, one state or several; values chosen so that the narrow types hold them)"""
     rng = ctx.rng
@@ -71,10 +85,9 @@ def typed_case(ctx, PosVel, GM, gen_elements, how=None):
     els = np.array([gen_elements(rng) for _ in range(m)], dtype=float)
     if system == "kepler":
         base = els.astype(np.float32).astype(float) if prec == "float32" else els
-        base[:, 1] = np.clip(base[:, 1], 0.001, 0.95)
     else:
         st = np.array(np.asarray(PosVel(els, "kepler").trs, dtype=float), copy=True).reshape(-1, 6)
-        base = st.astype(np.float32).astype(float) if prec == "float32" else (np.rint(st) if prec == "int" else st)
+        base = st.astype(np.float32).astype(float) if prec == "float32" else (np.rint(st) + 0.0 if prec == "int" else st)   # + 0.0: no -0.0
     if m == 1 and rng.random() < 0.6:
         base = base[0].copy()
     base = np.ascontiguousarray(base, dtype=float)
@@ -106,12 +119,12 @@ def run_typed(ctx, PosVel, GM, system, base, how="recorded"):
             gviolate(ctx, f"typed-input:{cls}:dtype", f"PosVel(<{cls}>, {system!r}) holds dtype {arr.dtype} (C-contiguous: {arr.flags.c_contiguous}), expected native float64, C order", case)
         if not bits_equal(arr.astype(float), base):
             gviolate(ctx, f"typed-input:{cls}:values", f"PosVel(<{cls}>, {system!r}) holds {np.ravel(arr)[:6].tolist()} but was given {np.ravel(base)[:6].tolist()}", case)
-        if not (conv.dtype == np.dtype("float64") and bits_equal(conv, ref_conv)):
+        if not close_f64(conv, ref_conv):
             d = float(np.nanmax(np.abs(conv.astype(float) - ref_conv) / np.maximum(1.0, np.abs(ref_conv)))) if conv.shape == ref_conv.shape else float("nan")
             gviolate(ctx, f"typed-input:{cls}:conversion", f"PosVel(<{cls}>, {system!r}).{other} is {np.ravel(conv)[:6].tolist()} (dtype {conv.dtype}) but the float64 copy of the same values "
                      f"gives {np.ravel(ref_conv)[:6].tolist()} (largest scaled difference {d:.3e})", case)
         for name, got, want in (("M", M, ref_M), ("f", f, ref_f)):
-            if not (got.dtype == np.dtype("float64") and bits_equal(got, want)):
+            if not close_f64(got, want):
                 gviolate(ctx, f"typed-input:{cls}:{name}", f"{name} of the Kepler side of PosVel(<{cls}>, {system!r}) is {np.ravel(got)[:4].tolist()} (dtype {got.dtype}) but "
                          f"{np.ravel(want)[:4].tolist()} for the float64 copy", case)
         if keep is not None and not (v.dtype == keep.dtype and np.array_equal(v, keep)):
